@@ -300,10 +300,18 @@ def levels(draw, nz, min_size=1, max_size=4, ascending=True):
 
 
 @st.composite
-def source(draw, ny, nx, kinds=("delta", "sparse", "dense", "smooth"), lo=-4.0, hi=4.0):
+def source(draw, ny, nx, kinds=("delta", "sparse", "dense", "smooth", "balanced"), lo=-4.0, hi=4.0):
     kind = draw(st.sampled_from(kinds))
     q = np.zeros((ny, nx))
-    if kind == "delta":
+    if kind == "balanced":
+        # exactly zero net flux: all zeros, or an uptake patch balancing an emission patch
+        if draw(st.integers(0, 3)) and ny * nx >= 2:
+            a = draw(st.sampled_from([1.0, 0.5, 2.0, 3.0]))
+            c1 = draw(st.integers(0, ny * nx - 1))
+            c2 = (c1 + draw(st.integers(1, ny * nx - 1))) % (ny * nx)
+            q.flat[c1] += a
+            q.flat[c2] -= a
+    elif kind == "delta":
         q[draw(st.integers(0, ny - 1)), draw(st.integers(0, nx - 1))] = draw(fl(0.5, hi))
     elif kind == "sparse":
         for _ in range(draw(st.integers(2, 4))):
